@@ -13,8 +13,12 @@
   a record need not carry every correlate field (the two nodes of a flow may export with different
   templates): a field the record lacks is `CorrV.absent`;
   stats elements [packetTotalCount, packetDeltaCount, octetTotalCount, octetDeltaCount] and their
-  reverse twins; non-stats elements [flowEndSeconds, flowEndReason, tcpState] (httpVals, a JSON
-  merge, is left out of the configuration and of the model).
+  reverse twins; non-stats elements [flowEndSeconds, flowEndReason, tcpState] and, in the sessions
+  the harness creates with `http`, httpVals (the JSON merge fillHttpVals, modelled for a restricted
+  value language: see `fillHttp`). The ORDER in which the configuration lists its elements carries
+  no meaning (fields are found by name; the aligned statistics lists by a common index), so the
+  model has no such notion: the harness's `cfg<n>` sessions, which permute the lists, are judged
+  against the same model.
   A flow key is an opaque number (the harness maps it to a fixed 5-tuple); times are virtual
   milliseconds (the overlay replaces time.Now() by a clock the harness sets).
   Arithmetic is uint64 / uint32 exactly as in the code.
@@ -94,6 +98,9 @@ structure InRec where
   endReason : Nat
   tcpState : Bytes
   stats : List Nat
+  /-- the value of the record's httpVals element; `none` = the record has no such element (the
+      sessions in which httpVals is not configured) -/
+  httpVals : Option Bytes := none
   deriving Repr, DecidableEq, Inhabited
 
 /-- the aggregated flow record -/
@@ -115,6 +122,7 @@ structure AggRec where
   ready : Bool
   retries : Nat
   corrFilled : Bool
+  httpVals : Option Bytes := none
   deriving Repr, DecidableEq, Inhabited
 
 def fromSrc (c : List CorrV) : Bool := !(corrStr c iSrcPod).isEmpty && (corrStr c iDstPod).isEmpty
@@ -154,7 +162,8 @@ def create (r : InRec) : AggRec :=
     endSrc := if fillSrc then r.end_ else 0, endDst := if fillDst then r.end_ else 0,
     thr := [t0, t1], thrSrc := if fillSrc then [t0, t1] else [0, 0], thrDst := if fillDst then [t0, t1] else [0, 0],
     ready := !cr, retries := 0,
-    corrFilled := if cr then false else r.flowType != Generated.cFlowTypeInterNode }
+    corrFilled := if cr then false else r.flowType != Generated.cFlowTypeInterNode,
+    httpVals := r.httpVals }
 
 /-- per-node stats update: totals take the incoming value, deltas accumulate (uint64) -/
 def updNode (node incoming : List Nat) : List Nat :=
@@ -213,11 +222,98 @@ def aggNums (r : InRec) (a : Nums) (fillSrc fillDst : Bool) : Nums :=
       thr := if isLatest then [t0, t1] else a.thr,
       thrSrc := if fillSrc then [t0, t1] else a.thrSrc, thrDst := if fillDst then [t0, t1] else a.thrDst }
 
+/-! ### httpVals: fillHttpVals for a restricted value language
+
+  The value of the string element httpVals is, by convention, a JSON object {"<transaction id>":"<text>", ...}.
+  fillHttpVals unmarshals the incoming and the stored value into two map[int32]string (the empty
+  string counts as the empty map), copies the STORED entries over the incoming ones (the stored
+  text of a transaction id wins) and marshals the result: encoding/json writes the keys as decimal
+  strings SORTED AS STRINGS. When either value does not parse, the incoming value replaces the
+  stored one as it is.
+  Modelled value language: the empty string; objects without white space whose keys are decimal
+  numbers of at most 9 digits without sign or leading zero and whose texts are ASCII letters and
+  digits; everything else counts as "does not parse" (for text that IS JSON in a form outside
+  this language - white space, escapes, signed keys - the model is not valid; the generators
+  stay inside the language). -/
+
+abbrev HttpMap := List (Nat × Bytes)
+
+def isDigit8 (c : UInt8) : Bool := 48 ≤ c && c ≤ 57
+def isAlnum8 (c : UInt8) : Bool := isDigit8 c || (65 ≤ c && c ≤ 90) || (97 ≤ c && c ≤ 122)
+
+def httpKey (ds : Bytes) : Option Nat :=
+  if ds.isEmpty || ds.length > 9 || !ds.all isDigit8 || (ds.length > 1 && ds.head? == some 48) then none
+  else some (ds.foldl (fun n c => n * 10 + (c.toNat - 48)) 0)
+
+/-- `"<letters and digits>"` at the head: the text and what follows it -/
+def httpQuoted : Bytes → Option (Bytes × Bytes)
+  | 34 :: t => match t.dropWhile isAlnum8 with
+    | 34 :: r => some (t.takeWhile isAlnum8, r)
+    | _ => none
+  | _ => none
+
+/-- map assignment m[k] = v -/
+def HttpMap.put (m : HttpMap) (k : Nat) (v : Bytes) : HttpMap := m.filter (·.1 != k) ++ [(k, v)]
+
+/-- the entries `"k":"v"` up to the closing brace, which ends the value (a repeated key: the last one wins) -/
+def httpEntries : Nat → Bytes → HttpMap → Option HttpMap
+  | 0, _, _ => none
+  | fuel + 1, b, acc =>
+    match httpQuoted b with
+    | some (k, 58 :: r) =>
+      match httpKey k, httpQuoted r with
+      | some k, some (v, [125]) => some (acc.put k v)
+      | some k, some (v, 44 :: r') => httpEntries fuel r' (acc.put k v)
+      | _, _ => none
+    | _ => none
+
+/-- json.Unmarshal into a map[int32]string, preceded by fillHttpVals's test for the empty string -/
+def parseHttp (b : Bytes) : Option HttpMap :=
+  match b with
+  | [] => some []
+  | [123, 125] => some []
+  | 123 :: t => httpEntries t.length t []
+  | _ => none
+
+def bytesLt : Bytes → Bytes → Bool
+  | [], [] => false
+  | [], _ :: _ => true
+  | _ :: _, [] => false
+  | a :: s, b :: t => a < b || (a == b && bytesLt s t)
+
+def decimal (n : Nat) : Bytes := (Nat.toDigits 10 n).map fun c => c.toNat.toUInt8
+
+def insertByKey (p : Bytes × Bytes) : List (Bytes × Bytes) → List (Bytes × Bytes)
+  | [] => [p]
+  | q :: t => if bytesLt p.1 q.1 then p :: q :: t else q :: insertByKey p t
+
+/-- json.Marshal of the map: `{"k":"v",...}`, the keys as decimal strings in string order -/
+def marshalHttp (m : HttpMap) : Bytes :=
+  let es := (m.map fun p => (decimal p.1, p.2)).foldl (fun l p => insertByKey p l) []
+  [123] ++ ([44] : Bytes).intercalate (es.map fun p => [34] ++ p.1 ++ [34, 58, 34] ++ p.2 ++ [34]) ++ [125]
+
+/-- fillHttpVals and what aggregateRecords does with its answer -/
+def fillHttp (incoming existing : Bytes) : Bytes :=
+  match parseHttp incoming, parseHttp existing with
+  | some i, some e => marshalHttp (e.foldl (fun m p => m.put p.1 p.2) i)
+  | _, _ => incoming
+
+/-- the end time of the reporting node's previous record (the flow's start for its first one) as
+    aggregateRecords computes it: a record which is not later is skipped once the end times are written
+    (the `r.end_ ≤ prev` of `aggNums`) - the non-stats elements, httpVals among them, are not looked at -/
+def prevEnd (r : InRec) (a : AggRec) (fillSrc fillDst : Bool) : Nat :=
+  let prevS := if a.endSrc == 0 then r.start else a.endSrc
+  let prevD := if a.endDst == 0 then r.start else a.endDst
+  if fillDst then prevD else if fillSrc then prevS else 0
+
 /-- aggregateRecords -/
 def aggregate (r : InRec) (a : AggRec) (fillSrc fillDst : Bool) : AggRec :=
   let n := aggNums r a.nums fillSrc fillDst
   { a with end_ := n.end_, endReason := n.endReason, tcpState := n.tcpState, stats := n.stats, srcStats := n.srcStats,
-           dstStats := n.dstStats, endSrc := n.endSrc, endDst := n.endDst, thr := n.thr, thrSrc := n.thrSrc, thrDst := n.thrDst }
+           dstStats := n.dstStats, endSrc := n.endSrc, endDst := n.endDst, thr := n.thr, thrSrc := n.thrSrc, thrDst := n.thrDst,
+           httpVals := match r.httpVals, a.httpVals with
+             | some i, some e => if r.end_ ≤ prevEnd r a fillSrc fillDst then some e else some (fillHttp i e)
+             | _, _ => a.httpVals }
 
 /-- ResetStatAndThroughputElementsInRecord -/
 def resetStats (a : AggRec) : AggRec :=
